@@ -1,7 +1,8 @@
 #!/bin/sh
 # usage: ./seedtest.sh <patch.diff> <prop> [<prop>...]   — applies a seeded change to /repo, runs the checks, reverts
 patch="$1"; shift
-cd /repo || exit 2
+REPO=${VERIF_REPO:-/repo}; ROOT=${VERIF_ROOT:-/verif}
+cd $REPO || exit 2
 if ! git apply --check "$patch" 2>/dev/null; then
   if ! git apply --3way --check "$patch" 2>/dev/null; then echo "PATCH-DOES-NOT-APPLY $patch"; exit 2; fi
   git apply --3way "$patch" >/dev/null 2>&1
@@ -9,8 +10,8 @@ else
   git apply "$patch"
 fi
 git reset -q 2>/dev/null
-cd /verif
+cd $ROOT
 for p in "$@"; do
   VERIF_NO_SEARCH=${VERIF_NO_SEARCH-} ./check "$p" 2>&1 | grep -E "^(VIOLATION|KNOWN|PASS|FAIL|ERROR)" | sed "s|^|[$p] |"
 done
-git -C /repo checkout -- . ; git -C /repo clean -fdq
+git -C $REPO checkout -- . ; git -C $REPO clean -fdq
